@@ -80,7 +80,22 @@ impl FloatCachePolicy {
             .collect()
     }
 
+    /// a key must have one value per configured precision: zipping a longer or shorter key
+    /// with the precisions would silently drop values from the cache key
+    fn check_key_length(&self, key: &[f64]) -> Result<(), CacheError> {
+        if key.len() != self.key_precisions.len() {
+            Err(CacheError::RuntimeError(format!(
+                "key has {} values but the cache policy has {} key_precisions",
+                key.len(),
+                self.key_precisions.len()
+            )))
+        } else {
+            Ok(())
+        }
+    }
+
     pub fn get(&self, key: &[f64]) -> Result<Option<f64>, CacheError> {
+        self.check_key_length(key)?;
         let int_key = self.float_key_to_int_key(key);
         let mut cache = self.cache.lock().map_err(|e| {
             CacheError::RuntimeError(format!("Could not get lock on cache due to {}", e))
@@ -89,6 +104,7 @@ impl FloatCachePolicy {
     }
 
     pub fn update(&self, key: &[f64], value: f64) -> Result<(), CacheError> {
+        self.check_key_length(key)?;
         let int_key = self.float_key_to_int_key(key);
         let mut cache = self.cache.lock().map_err(|e| {
             CacheError::RuntimeError(format!("Could not get lock on cache due to {}", e))
